@@ -96,6 +96,22 @@ fn real_main() -> i32 {
         let _ = std::fs::remove_dir_all(&dir);
         return 0;
     }
+    if args[1] == "rename-debug" {
+        // zyverif rename-debug <replay.json>: show the marked token stream and the renaming decisions
+        let doc: serde_json::Value = serde_json::from_str(&std::fs::read_to_string(&args[2]).unwrap()).unwrap();
+        let tape = zyverif::engine::unhex(doc["tape_hex"].as_str().unwrap());
+        let g = zyverif::core::harness::generate(&tape, &zyverif::core::generate::Cfg::quick());
+        let names = zyverif::core::print::Names::unique(&g.prog);
+        let style = zyverif::core::print::Style::default();
+        let mut pr = zyverif::core::print::Printer::new(&g.prog, &names, &style);
+        pr.scopes = true;
+        pr.program();
+        println!("{}", pr.out.iter().map(|t| if let Some(r) = t.strip_prefix('\u{1}') { format!("⟦{r}⟧") } else { t.clone() }).collect::<Vec<_>>().join(" "));
+        let mut st = zyverif::engine::Tape::new(if tape.len() > 24 { &tape[tape.len() - 24..] } else { &tape });
+        let r = zyverif::core::naming::rename_tokens(&mut pr.out, &names.binder, &mut st, 8);
+        println!("\n{r:?}\n{}", zyverif::core::print::join(&pr.out));
+        return 0;
+    }
     if args[1] == "probe" {
         // zyverif probe <file> [stdin-text]: verdict, diagnostic kinds, run result (development aid)
         use zyverif::drive::*;
